@@ -21,6 +21,7 @@ import (
 	"net"
 	"net/netip"
 	"runtime/debug"
+	"strconv"
 	"sync"
 	"time"
 
@@ -387,6 +388,17 @@ func (m *natmap) Close() error {
 // and serializing an IPv6 address from the example range.
 var maxAddrLen int = len(socks.ParseAddr("[2001:db8::1]:12345"))
 
+// sourceAddrString returns the "host:port" form of the source of a datagram, as it is reported
+// to the client. The zone of a scoped IPv6 source (e.g. "fe80::1%eth0") is dropped: it is only
+// meaningful on this host, and `socks.ParseAddr` would otherwise encode the address as a domain
+// name that does not fit in the space reserved for the address header.
+func sourceAddrString(addr net.Addr) string {
+	if udpAddr, ok := addr.(*net.UDPAddr); ok && udpAddr.Zone != "" {
+		return net.JoinHostPort(udpAddr.IP.String(), strconv.Itoa(udpAddr.Port))
+	}
+	return addr.String()
+}
+
 // copy from target to client until read timeout
 func timedCopy(clientAddr net.Addr, clientConn net.PacketConn, targetConn *natconn, l *slog.Logger) {
 	// pkt is used for in-place encryption of downstream UDP packets, with the layout
@@ -422,7 +434,7 @@ func timedCopy(clientAddr net.Addr, clientConn net.PacketConn, targetConn *natco
 			}
 
 			debugUDPAddr(l, "Got response.", clientAddr, slog.Any("target", raddr))
-			srcAddr := socks.ParseAddr(raddr.String())
+			srcAddr := socks.ParseAddr(sourceAddrString(raddr))
 			addrStart := bodyStart - len(srcAddr)
 			// `plainTextBuf` concatenates the SOCKS address and body:
 			// [padding?][salt][address][body][tag][unused]
